@@ -282,6 +282,12 @@ int disasm_riscv(
             riscv_reg_names[rs2],
             riscv_reg_names[rs1]);
           break;
+        case OP_R_FP:
+          snprintf(instruction, length, "%s %s, f%d",
+            instr,
+            riscv_reg_names[rd],
+            rs1);
+          break;
         case OP_R_FP_RM:
           snprintf(instruction, length, "%s %s, f%d%s",
             instr,
